@@ -193,7 +193,8 @@ fn run1d<T: Fl>(job: &Job, quick: bool, out: &mut JobOut) {
     let n = xt.len();
     let key = job.key();
     // two lanes; the second one is periodic-compatible as well
-    let lane0: Vec<T> = (0..n).map(|i| T::from_f64_lossy([1.0, -0.5, 2.0, 0.25][i % 4])).collect();
+    // (non-dyadic values: interpolation arithmetic on them rounds, also exactly at the knots)
+    let lane0: Vec<T> = (0..n).map(|i| T::from_f64_lossy([0.5, 0.1, 0.3, 0.9, 1.0 / 3.0, -0.7, 2.6][(i + n) % 7])).collect();
     let mut lane1: Vec<T> = (0..n).map(|i| T::from_f64_lossy((i % 3) as f64)).collect();
     let mut l0 = lane0.clone();
     l0[n - 1] = l0[0];
